@@ -499,6 +499,77 @@ func VerifC04_ConcurrentGetterRace() {
 	rt.Reach("getterrace-end")
 }
 
+// one concurrency-safe getter shared by two goroutines: after a completed set,
+// both calls observe the new value - also while the first one is still in the
+// middle of its refresh (parked on the option's lock, which the harness holds)
+func VerifC04_ConcurrentGetterShared() {
+	rt.NoTimers()
+	rt.SchedYieldOnly(true)
+	c04Reset()
+	kind := rt.Choice("kind", 4)
+	var read func() int64
+	switch kind {
+	case 0:
+		addOption("k", OptTypeInt, ReleaseLevelStable, &valueCache{intVal: 0})
+		g := Concurrent.GetAsInt("k", -1)
+		read = func() int64 { return g() }
+	case 1:
+		addOption("k", OptTypeBool, ReleaseLevelStable, &valueCache{boolVal: false})
+		g := Concurrent.GetAsBool("k", false)
+		read = func() int64 {
+			if g() {
+				return 3
+			}
+			return 2
+		}
+	case 2:
+		addOption("k", OptTypeString, ReleaseLevelStable, &valueCache{stringVal: ""})
+		g := Concurrent.GetAsString("k", "")
+		read = func() int64 { return int64(len(g())) }
+	case 3:
+		addOption("k", OptTypeStringArray, ReleaseLevelStable, &valueCache{stringArrayVal: []string{}})
+		g := Concurrent.GetAsStringArray("k", nil)
+		read = func() int64 { return int64(len(g())) }
+	}
+	val := func(n int64) interface{} {
+		switch kind {
+		case 1:
+			return n == 3
+		case 2:
+			return "xxx"[:n]
+		case 3:
+			return []string{"a", "b", "c"}[:n]
+		}
+		return n
+	}
+	rt.Assert(setConfigOption("k", val(2), false) == nil, "gettershared/first-set-ok")
+	rt.Assert(read() == 2, "gettershared/initial")
+	rt.Assert(setConfigOption("k", val(3), false) == nil, "gettershared/second-set-ok")
+	// the set has returned; two goroutines now use the getter
+	o, _ := GetOption("k")
+	o.Lock() // the first caller's refresh parks where it fetches the value
+	var a, b int64
+	doneA, doneB := make(chan struct{}), make(chan struct{})
+	go func() {
+		a = read()
+		close(doneA)
+	}()
+	rt.Yield()
+	rt.NativePause()
+	go func() {
+		b = read()
+		close(doneB)
+	}()
+	rt.Yield()
+	rt.NativePause()
+	o.Unlock()
+	<-doneA
+	<-doneB
+	rt.Assert(a == 3, "gettershared/first-caller-observes-the-new-value")
+	rt.Assert(b == 3, "gettershared/second-caller-observes-the-new-value")
+	rt.Reach("gettershared-end")
+}
+
 // getters of the wrong type and for unknown options keep returning their
 // fallback, also after the configuration changed (getters refresh then)
 func VerifC04_FallbackCurrency() {
